@@ -560,7 +560,18 @@ def labels(case, obs):
       info = _snapinfo(e)
       p = info.get('p')
       if p is not None:
-        gone = sorted(shadow['pending'] - set(p) - {shadow.get('jit')})
+        gone = set(shadow['pending']) - set(p)
+        # The endpoint a running _Jitter waits on is discarded by _Jitter's own `finally` (modelled inside
+        # LJitterDone); that discard is first visible at the randint/Schedule of _ScheduleNextJitter which follow
+        # it in the same greenlet.  Seen anywhere else, the mark was removed by a completion callback of an OLDER
+        # expansion of the same endpoint (stale pending mark, endpoint went back to idle and was picked again):
+        # that is an ordinary LOpenDone.
+        jit_final = (e[0] == 'schedule') or (e[0] == 'randint' and e[1] == cfg.get('jitter_min') and e[1] != 1)
+        if jit_final:
+          gone.discard(shadow.get('jit'))
+          if cur is not None and cur['kind'] == 'jstart':
+            gone.discard(cur.get('ch'))
+        gone = sorted(gone)
         if gone:
           close()
           for g in gone:
@@ -632,7 +643,8 @@ def labels(case, obs):
     # discards that happened after the last traced event of the op
     fin = st['snap'].get('pending')
     if fin is not None:
-      for g in sorted(shadow['pending'] - set(fin) - {shadow.get('jit')}):
+      # (a jitter endpoint still set here means _Jitter is still waiting: its mark can only have been removed by a callback)
+      for g in sorted(shadow['pending'] - set(fin)):
         labs.append(('opendone', 'LOpenDone (%d)%%Z' % g))
         shadow['pending'].discard(g)
     out.append(labs)
